@@ -351,6 +351,8 @@ class Evaluator:
         if isinstance(v, dict):
             if "str" in v:
                 return v["str"]
+            if "tinystr" in v:
+                return v["tinystr"]
             if "f64" in v:
                 return v["f64"]
             if "char" in v:
@@ -433,7 +435,12 @@ class Evaluator:
                         return Sym("let-else-fallthrough", ())
                     else:
                         if st.get("els") is not None:
-                            self._safe(st["els"], dict(env))
+                            if self.fork:
+                                if not self._decide(Sym("let-else", (pat_show(st["pat"]), v)), [True, False]):
+                                    self.ev(st["els"], env)
+                                    return Sym("let-else-fallthrough", ())
+                            else:
+                                self._safe(st["els"], dict(env))
                         install({name: Sym("pat", (name, v)) for name in pat_names(st["pat"])})
                 elif k == "semi":
                     self.ev(st["e"], env)
@@ -1008,11 +1015,13 @@ def _b_unwrap(ev, n, a):
 
 
 def _b_is(which):
+    name = {SOME: "is_some", NONE: "is_none", OK: "is_ok", ERR: "is_err"}[which[0]]
+
     def f(ev, n, a):
         o = a[0]
         if isinstance(o, V) and o.path in (SOME, NONE, OK, ERR):
             return o.path in which
-        return Sym("is", (o,))
+        return Sym(name, (o,))
     return f
 
 
@@ -1049,6 +1058,30 @@ def _b_map_err(ev, n, a):
                 return V(ERR, (ev.apply_closure(f, [o.args[0]]),))
             return V(ERR, (Sym("mapped", (o.args[0], f)),))
     return Sym("map_err", (o, f))
+
+
+def _b_map_or_else(ev, n, a):
+    o, dflt, f = a
+    if isinstance(o, V) and o.path in (SOME, OK):
+        if isinstance(f, Closure):
+            return ev.apply_closure(f, [o.args[0]])
+        return Sym("mapped", (o.args[0], f))
+    if isinstance(o, V) and o.path in (NONE, ERR):
+        if isinstance(dflt, Closure):
+            return ev.apply_closure(dflt, [] if o.path == NONE else [o.args[0]])
+        return Sym("lazy", (dflt,))
+    return Sym("map_or_else", (o, dflt, f))
+
+
+def _b_map_or(ev, n, a):
+    o, dflt, f = a
+    if isinstance(o, V) and o.path in (SOME, OK):
+        if isinstance(f, Closure):
+            return ev.apply_closure(f, [o.args[0]])
+        return Sym("mapped", (o.args[0], f))
+    if isinstance(o, V) and o.path in (NONE, ERR):
+        return dflt
+    return Sym("map_or", (o, dflt, f))
 
 
 def _b_ok_or(ev, n, a):
@@ -1271,6 +1304,9 @@ BUILTINS = {
     "core::result::Result::<T, E>::map": _b_map,
     "core::result::Result::<T, E>::map_err": _b_map_err,
     "core::option::Option::<T>::ok_or": _b_ok_or,
+    "core::option::Option::<T>::map_or_else": _b_map_or_else,
+    "core::option::Option::<T>::map_or": _b_map_or,
+    "core::result::Result::<T, E>::map_or_else": _b_map_or_else,
     "core::option::Option::<T>::ok_or_else": _b_ok_or_else,
     "core::result::Result::<T, E>::ok": _b_ok,
     "core::option::Option::<T>::is_some_and": _b_is_some_and,
